@@ -131,6 +131,17 @@ func nextBaseFee(base *big.Int, maxGas int64, consumed uint64, minFloor *big.Int
 	return m
 }
 
+// unlimitedReading: Block.MaxGas = 0 can be read in two ways. Literally the limit is 0 (target 0: the base
+// fee stays when nothing was consumed, and no movement is defined otherwise). The SDK, however, runs
+// such a block without any gas limit, exactly like MaxGas = -1. The statement does not choose, so for
+// MaxGas = 0 the value prescribed for an unlimited block is accepted as well. Returns nil for other MaxGas.
+func unlimitedReading(base *big.Int, maxGas int64, consumed uint64, minFloor *big.Int) *big.Int {
+	if maxGas != 0 {
+		return nil
+	}
+	return nextBaseFee(base, -1, consumed, minFloor).Next
+}
+
 // decFloor is the integer part of a non-negative decimal string ("12.75" -> 12), computed
 // without the SDK's decimal type.
 func decFloor(s string) *big.Int {
